@@ -139,6 +139,16 @@ func (e *Eval) Prepare(flags ...[]byte) error {
 	}
 
 	//
+	// The operands of our bytecode instructions are sixteen bits wide:
+	// jump-targets and constant-references must fit, or they would
+	// silently wrap around.
+	//
+	err = e.checkLimits()
+	if err != nil {
+		return err
+	}
+
+	//
 	// If we've got the optimizer enabled then set the environment
 	// variable, so that the virtual machine knows it should
 	// run a series of optimizations.
@@ -165,6 +175,25 @@ func (e *Eval) Prepare(flags ...[]byte) error {
 	//
 	// All done; no errors.
 	//
+	return nil
+}
+
+// checkLimits ensures that the compiled program can be addressed by the
+// sixteen-bit operands our bytecode uses.
+func (e *Eval) checkLimits() error {
+	const max = 65535
+
+	if len(e.instructions) > max {
+		return fmt.Errorf("the program is too large: %d bytes of bytecode, the limit is %d", len(e.instructions), max)
+	}
+	for name, fn := range e.functions {
+		if len(fn.Bytecode) > max {
+			return fmt.Errorf("the function %s is too large: %d bytes of bytecode, the limit is %d", name, len(fn.Bytecode), max)
+		}
+	}
+	if len(e.constants) > max+1 {
+		return fmt.Errorf("the program uses too many constants: %d, the limit is %d", len(e.constants), max+1)
+	}
 	return nil
 }
 
